@@ -10,7 +10,7 @@
 import Rtp.Model.Sequencer
 import Rtp.Pred.C07
 namespace Rtp.Proofs.SequencerConc
-open Rtp Rtp.Model Rtp.Spec.Counter Rtp.Pred.C07
+open Rtp Rtp.Model Rtp.Model.SeqConc Rtp.Spec.Counter Rtp.Pred.C07
 
 /-! ### list facts -/
 
